@@ -998,11 +998,18 @@ func c10SuccessRange(c *Ctx) {
 	}
 	// hit: target = block storing Result.Error from r.Status; start = the first block of the comparison chain
 	var errStore *ssa.Store
-	eachInstr(hit, func(i ssa.Instruction) {
-		if st, ok := resultFieldStore(i, "Error"); ok {
-			errStore = st
-		}
-	})
+	// the store whose value is the response status text (hit may delegate the exchange to a
+	// single-site helper; the conversion of a Go error to text is a different store)
+	withInline(func() {
+		eachInstrI(hit, func(i ssa.Instruction) {
+			if st, ok := resultFieldStore(i, "Error"); ok {
+				if call, isCall := st.Val.(*ssa.Call); isCall && call.Call.IsInvoke() {
+					return // err.Error()
+				}
+				errStore = st
+			}
+		})
+	}, hit)
 	var succStore *ssa.Store
 	eachInstr(add, func(i ssa.Instruction) {
 		if st, ok := i.(*ssa.Store); ok {
